@@ -13,6 +13,16 @@ CHECKS = {
          "Trusted: the 40-line reference order written from the manual; gojq's own evaluation of the key functions f (C01/C03). Values outside the universes are not covered.",
          "DESIGN.md §4 C11"),
 }
+CHECKS["C01"] = ("model_checking",
+ "bounded-exhaustive program enumeration vs a reference interpreter + explicit-state BFS of the persistent stacks",
+ "Every derivation of six core-form grammars up to a node bound, every context tower (42 one-hole contexts nested to depth 2, thorough 3, around 14 generator leaves) and every corpus query is run on every value of a 12-value universe (arrays with spare capacity and sentinels) on the real VM and on refjq, a callback-style reference interpreter of jq's generator semantics that is validated on its own against the 577 expectations of cli/test.yaml it supports; outputs, error position, error(v) payloads and compile-time outcomes must agree. In addition a breadth-first explicit-state search runs every admissible push/pop/save/restore sequence (depth 11, thorough 13) of the real stack and scopeStack against an immutable-list model, checking contents, LIFO restore and a no-leak bound in every state.",
+ "Trusted: refjq (mc/refjq, ~1300 lines) and the jq manual it transcribes; leaf natives are delegated to the implementation (C03 checks them). One known deviation (t[k]? key evaluation) is attributed by switching the model to exactly that deviation. Programs above the node bounds are not covered.",
+ "DESIGN.md §4 C01")
+CHECKS["C04"] = ("exploration",
+ "exhaustive differential testing across 16 compiler configurations (hooked optimisation switches)",
+ "Every derivation of six grammars placed on the rewrite preconditions (literal shapes, one-instruction arguments, constant conditionals, self calls in/out of tail position, constant paths under update operators, join points followed by pop/const), of the C01/C02 grammars, the context towers and the corpus is compiled with all optimisations on, with each of the 14 optimisation switches off alone, and with all off; every configuration whose instruction list differs is run on every input of the universe and must emit the same values and errors in the same order.",
+ "Trusted: the 14 add-only guard lines (build tag verif) really select the compiler's general lowering. Error-message-only differences of uncaught errors are counted, not alarmed. Programs above the bounds are not covered.",
+ "DESIGN.md §4 C04")
 NOT_YET = "check not built yet (work in progress in this session); see DESIGN.md for the planned exploration"
 
 def commits():
